@@ -86,6 +86,7 @@ class MiniZk(object):
         self.child_watches = {}
         self.handler = _Handler()
         self.sets = 0
+        self.seq = 0
         self.listeners = []
 
     # -- kazoo client surface ------------------------------------------------
@@ -145,6 +146,10 @@ class MiniZk(object):
     @staticmethod
     def make_default_acl(_acl):
         return []
+
+    @staticmethod
+    def make_servers_acl():
+        return None
 
     def set_acls(self, _path, _acl):
         pass
@@ -211,7 +216,12 @@ class MiniZk(object):
     def create(self, path, value=b'', acl=None, ephemeral=False,
                sequence=False, makepath=False):
         from kazoo import exceptions
-        assert not sequence and not ephemeral
+        assert not ephemeral
+        if sequence:
+            # one counter for the whole tree is enough here (real ZooKeeper
+            # counts per parent): names stay unique and increasing
+            self.seq += 1
+            path = '%s%010d' % (path, self.seq)
         if path in self.nodes:
             raise exceptions.NodeExistsError(path)
         parent = self._parent(path)
@@ -255,6 +265,123 @@ class MiniZk(object):
             if head == app:
                 out.append((int(seq), name))
         return [name for _seq, name in sorted(out)]
+
+
+class ApiZk(object):
+    """The ZooKeeper session of the cell API server: same tree as the
+    monitor's, its own connection.  One armed fault hits the (skip+1)-th next
+    write: 'before' = ConnectionLoss, the request never reached the server;
+    'after' = the server applied it, the reply is lost (ConnectionLoss);
+    'expired' = SessionExpiredError, nothing applied."""
+
+    def __init__(self, tree, stats):
+        self._tree = tree
+        self._stats = stats
+        self.fault = None
+
+    def __getattr__(self, name):
+        return getattr(self._tree, name)
+
+    def _write(self, apply):
+        from kazoo import exceptions
+        flt = self.fault
+        if flt is None:
+            return apply()
+        if flt[1] > 0:
+            flt[1] -= 1
+            return apply()
+        self.fault = None
+        self._stats.count('zkfault:' + flt[0])
+        if flt[0] == 'expired':
+            raise exceptions.SessionExpiredError()
+        if flt[0] == 'after':
+            try:
+                apply()
+            except (exceptions.NoNodeError, exceptions.NodeExistsError,
+                    exceptions.NotEmptyError):
+                pass            # the error reply is lost as well
+        raise exceptions.ConnectionLoss()
+
+    def create(self, path, value=b'', acl=None, ephemeral=False,
+               sequence=False, makepath=False):
+        return self._write(lambda: self._tree.create(
+            path, value, acl=acl, ephemeral=ephemeral, sequence=sequence,
+            makepath=makepath))
+
+    def set(self, path, value, version=-1):
+        return self._write(lambda: self._tree.set(path, value, version))
+
+    def delete(self, path, version=-1, recursive=False):
+        return self._write(lambda: self._tree.delete(path, version))
+
+
+MANIFEST = {
+    'cpu': '10%', 'memory': '100M', 'disk': '100M', 'tickets': [],
+    'endpoints': [{'name': 'http', 'port': 8888}],
+    'services': [{'command': '/bin/sleep 1000', 'name': 'sleep',
+                  'restart': {'interval': 60, 'limit': 3}}],
+    'features': [], 'ephemeral_ports': {}, 'passthrough': [], 'args': [],
+    'environ': [], 'affinity_limits': {},
+}
+
+
+class _SitePlugin(object):
+    """The site specific instance plugin (not in the repo): the instance API
+    needs one to fill in proid and environment."""
+
+    @staticmethod
+    def add_attributes(rsrc_id, manifest):
+        manifest = dict(manifest)
+        manifest['proid'] = rsrc_id.partition('.')[0]
+        manifest['environment'] = 'dev'
+        return manifest
+
+    @staticmethod
+    def remove_attributes(manifest):
+        return manifest
+
+
+class _AdminApps(object):
+    """admin.application(): what LDAP says about the monitored apps."""
+
+    def __init__(self, run):
+        self._run = run
+
+    def get(self, rsrc_id):
+        import copy
+        from treadmill.admin import exc as admin_exc
+        how = self._run.api.get(rsrc_id, 'ok')
+        if how == 'notfound':
+            raise admin_exc.NoSuchObjectResult(rsrc_id)
+        manifest = copy.deepcopy(MANIFEST)
+        manifest['_id'] = rsrc_id
+        if how == 'badrequest':
+            manifest['memory'] = '50M'     # refused by the instance API
+        return manifest
+
+
+class _AdminStub(object):
+    def __init__(self, run):
+        self._apps = _AdminApps(run)
+
+    def application(self):
+        return self._apps
+
+
+_INSTANCE_API = {}
+
+
+def _instance_api():
+    if 'api' not in _INSTANCE_API:
+        import inspect
+        import decorator
+        if not hasattr(decorator, 'getargspec'):
+            decorator.getargspec = inspect.getfullargspec
+        from treadmill.api import instance
+        api = instance.API()
+        api._plugins = [_SitePlugin()]       # pylint: disable=W0212
+        _INSTANCE_API['api'] = api
+    return _INSTANCE_API['api']
 
 
 # --------------------------------------------------------------------------
@@ -359,7 +486,11 @@ class Run(object):
         self.zk = MiniZk()
         self.clock = Clock()
         self.model = Model()
-        self.seq = case['seq0']
+        self.zk.seq = case['seq0']
+        self.real_api = bool(case.get('real_api'))
+        self.apizk = ApiZk(self.zk, stats)
+        self.verdict = None
+        self.outcomes = {}
         self.round = -1
         self.api = {}
         self.calls = []
@@ -369,8 +500,7 @@ class Run(object):
     # -- environment --------------------------------------------------------
     def _spawn(self, app, howmany):
         for _ in range(howmany):
-            self.seq += 1
-            self.zk.create('%s/%s#%010d' % (SCHED, app, self.seq), b'')
+            self.zk.create('%s/%s#' % (SCHED, app), b'', sequence=True)
 
     def _mon_path(self, name):
         return '%s/%s' % (APPMON, name)
@@ -423,14 +553,108 @@ class Run(object):
             raise AssertionError('harness: op %r' % (oper,))
 
     # -- fake REST API --------------------------------------------------------
+    def post_real(self, url, payload, headers):
+        """The HTTP hop (one attempt) into the real instance API and
+        masterapi, on the API server's own ZooKeeper session.  Dispatch as
+        treadmill.rest.api.instance does, errors mapped as
+        rest.error_handlers + restclient._handle_error do."""
+        import jsonschema
+        import kazoo.exceptions
+        from treadmill import context
+        from treadmill import exc
+        from treadmill import restclient
+        from treadmill.admin import exc as admin_exc
+        impl = _instance_api()
+        user = (headers or {}).get('X-Treadmill-Trusted-Agent')
+        prefix = '/instance/'
+        if url == '/instance/_bulk/delete':
+            named = list(payload['instances'])
+            apps = sorted(set(i.rpartition('#')[0] for i in named))
+            app = apps[0] if len(apps) == 1 else None
+            call = ('delete', app, named)
+        else:
+            assert url.startswith(prefix) and '?count=' in url, url
+            app, _sep, num = url[len(prefix):].partition('?count=')
+            call = ('create', app, int(num))
+        self.calls.append(call)
+        how = self.api.get(app, 'ok')
+        if isinstance(how, list):
+            self.apizk.fault = [how[1], how[2]]
+        before = set(self.zk.get_children(SCHED))
+        saved = (context.GLOBAL.zk._conn,     # pylint: disable=W0212
+                 context.GLOBAL.admin._conn)  # pylint: disable=W0212
+        context.GLOBAL.zk.conn = self.apizk
+        context.GLOBAL.admin._conn = _AdminStub(self)  # pylint: disable=W0212
+        outcome = 'ok'
+        error = None
+        try:
+            if call[0] == 'delete':
+                if named:
+                    impl.bulk_delete(named[0].partition('.')[0], named, user)
+            else:
+                impl.create(app, payload, call[2], user, False, None)
+        except (kazoo.exceptions.NoNodeError, admin_exc.NoSuchObjectResult,
+                exc.NotFoundError) as err:
+            outcome, error = 'notfound', err
+        except (exc.InvalidInputError, exc.QuotaExceededError,
+                jsonschema.exceptions.ValidationError) as err:
+            outcome, error = 'badrequest', err
+        except Exception as err:  # pylint: disable=broad-except
+            outcome, error = 'error', err        # HTTP 500
+        finally:
+            context.GLOBAL.zk.conn = saved[0]
+            context.GLOBAL.admin._conn = saved[1]  # pylint: disable=W0212
+            self.apizk.fault = None
+        after = set(self.zk.get_children(SCHED))
+        appeared = sorted(after - before)
+        vanished = sorted(before - after)
+        self.outcomes[app] = outcome
+        self.stats.count('api:real:%s:%s' % (call[0], outcome))
+        where = 'round %d' % self.round
+        if call[0] == 'create':
+            if len(appeared) > call[2] or vanished or any(
+                    name.rpartition('#')[0] != app for name in appeared):
+                # (reevaluate catches Exception around the request: the
+                # verdict is kept and raised when the evaluation returns)
+                self.verdict = Violation(
+                    'c20.create.more-than-asked',
+                    '%s: the monitor asked for %d x %s (request ended: %s '
+                    '%r), %d instance(s) came into existence: %r (vanished: '
+                    '%r)' % (where, call[2], app, outcome, error,
+                             len(appeared), appeared, vanished))
+            if outcome != 'ok' and appeared:
+                self.stats.count('api:real:create:failed-partially-applied')
+        else:
+            if appeared or not set(vanished) <= set(call[2]):
+                self.verdict = Violation(
+                    'c20.delete.more-than-named',
+                    '%s: the monitor named %r (request ended: %s %r), '
+                    'vanished: %r, appeared: %r'
+                    % (where, call[2], outcome, error, vanished, appeared))
+        if outcome == 'notfound':
+            raise restclient.NotFoundError('Resource not found: %s' % url)
+        if outcome == 'badrequest':
+            raise restclient.BadRequestError(_Resp())
+        if outcome == 'error':
+            raise restclient.MaxRequestRetriesError(5)
+        return _Resp()
+
+    def retry_sleep(self, seconds):
+        """KazooRetry's sleep (zkutils.with_retry): virtual time passes."""
+        self.stats.count('zk_retry_sleeps')
+        self.clock.us += 100000
+
     def post(self, api, url, payload, headers=None, **_kwargs):
         from treadmill import restclient
+        if self.real_api:
+            return self.post_real(url, payload, headers)
         if url == '/instance/_bulk/delete':
             instances = list(payload['instances'])
             apps = sorted(set(i.rpartition('#')[0] for i in instances))
             app = apps[0] if len(apps) == 1 else None
             self.calls.append(('delete', app, instances))
             how = self.api.get(app, 'ok')
+            self.outcomes[app] = 'ok' if how == 'ok' else 'error'
             self.stats.count('api:delete:' + ('ok' if how == 'ok' else 'fail'))
             if how != 'ok':
                 raise restclient.MaxRequestRetriesError(5)
@@ -444,6 +668,7 @@ class Run(object):
         num = int(num)
         self.calls.append(('create', app, num))
         how = self.api.get(app, 'ok')
+        self.outcomes[app] = how
         self.stats.count('api:create:' + how)
         if how == 'ok':
             self._spawn(app, num)
@@ -469,10 +694,14 @@ class Run(object):
         truth = {name: self.zk.instances(name) for name in model.confs}
         before = {name: conf['tokens'] for name, conf in active.items()}
         self.calls = []
+        self.outcomes = {}
+        self.verdict = None
         self.evals += 1
         self.stats.count('evaluations_of_monitor', len(model.confs))
 
         result = real(api_url, alert_f, state, zkclient, last_waited)
+        if self.verdict is not None:
+            raise self.verdict
 
         by_app = {}
         for call in self.calls:
@@ -554,7 +783,7 @@ class Run(object):
                         'c20.progress.under-ask',
                         '%s: asked for %d, %d missing and budget allows %d'
                         % (ctx, asked, missing, lower))
-                how = self.api.get(name, 'ok')
+                how = self.outcomes.get(name, 'ok')
                 if how == 'ok':
                     conf['tokens'] -= asked
                     conf['created'] += asked
@@ -667,11 +896,25 @@ class Run(object):
             return self.evaluate(real, api_url, alert_f, state, zkclient,
                                  last_waited)
 
+        import kazoo.retry
+        from treadmill import trace
         saved = (appmonitor.time, appmonitor.reevaluate,
                  appmonitor.make_alerter, restclient.post, utils.sys_exit,
-                 context.GLOBAL.zk._conn)  # pylint: disable=W0212
+                 context.GLOBAL.zk._conn,  # pylint: disable=W0212
+                 kazoo.retry.KazooRetry, trace.time)
+        run = self
+
+        class _VirtualRetry(saved[6]):
+            """kazoo's real retry helper; only its default sleep becomes
+            virtual (zkutils.with_retry would really sleep)."""
+            def __init__(self, *args, **kwargs):
+                kwargs.setdefault('sleep_func', run.retry_sleep)
+                super(_VirtualRetry, self).__init__(*args, **kwargs)
+
         self.clock.hook = self.hook
         try:
+            kazoo.retry.KazooRetry = _VirtualRetry
+            trace.time = self.clock
             appmonitor.time = self.clock
             appmonitor.reevaluate = wrapped
             appmonitor.make_alerter = alerter
@@ -687,6 +930,7 @@ class Run(object):
             (appmonitor.time, appmonitor.reevaluate, appmonitor.make_alerter,
              restclient.post, utils.sys_exit) = saved[:5]
             context.GLOBAL.zk.conn = saved[5]
+            kazoo.retry.KazooRetry, trace.time = saved[6], saved[7]
         return self.model.flags
 
 
@@ -712,6 +956,9 @@ def _mon_op(draw, name):
 @st.composite
 def cases(draw, max_rounds=30):
     napps = draw(st.integers(1, 3))
+    # a third of the histories send the monitor's requests through the real
+    # instance API + masterapi instead of the counting stand-in
+    real_api = draw(st.integers(0, 2)) == 0
     apps = draw(st.permutations(APPS))[:napps]
     init = []
     for name in apps:
@@ -744,7 +991,18 @@ def cases(draw, max_rounds=30):
                 # count-only update (what cron / multi-cell monitor send),
                 # aimed low so that a scale-down follows
                 ops.append(['mon', name, draw(st.integers(0, 3)), None])
-            if draw(st.integers(0, 6)) == 0:
+            if real_api:
+                roll = draw(st.integers(0, 11))
+                if roll < 3:
+                    # one-shot fault on the API server's ZooKeeper writes
+                    # (scheduled create, trace create, ... in turn)
+                    api[name] = ['fault', draw(st.sampled_from(
+                        ['before', 'after', 'after', 'expired'])),
+                                 draw(st.integers(0, 5))]
+                elif roll < 5:
+                    api[name] = draw(st.sampled_from(
+                        ['notfound', 'badrequest']))
+            elif draw(st.integers(0, 6)) == 0:
                 api[name] = draw(st.sampled_from(FAILS))
         if draw(st.integers(0, 9)) == 0:
             ops.insert(draw(st.integers(0, len(ops))),
@@ -762,4 +1020,6 @@ def cases(draw, max_rounds=30):
     }
     if draw(st.integers(0, 4)) == 0:
         case['waited0'] = [apps[0]]
+    if real_api:
+        case['real_api'] = True
     return case
